@@ -30,6 +30,57 @@ def N_same_landing(e, rname):
     return N.same(e.node, 'self.t + %s > self.tf - self._epsilon' % rname, 'self.t + %s >= self.tf - self._epsilon' % rname)
 
 
+def rule_clamp(chk, cls):
+    """the step is shortened only to land on a requested output time, and the nominal step is saved first (shared with C19: the saved step is what the run falls back on
+    when no criterion applies afterwards)"""
+    # --- clamp: decided per feasible path through _dump_output_if_needed (private helpers inlined, path-local names substituted)
+    from verif_static import paths as PT
+    dn = M.find_func(cls, '_dump_output_if_needed')
+    dpaths = PT.enumerate_paths(M.docstring_stripped(dn.body))
+    chk.unit('paths through _dump_output_if_needed', len(dpaths))
+
+    def is_clamp(e):
+        return e.kind == 'stmt' and isinstance(e.node, ast.Assign) and U(e.node.targets[0]) == 'self.dt'
+    cl_paths = [(p_, [i for i, e in enumerate(p_) if is_clamp(e)]) for p_ in dpaths]
+    cl_paths = [(p_, ix) for p_, ix in cl_paths if ix]
+    if not cl_paths:
+        chk.violated('clamp', 'single-site', node=dn, file=SOL, func='_dump_output_if_needed', detail='no path shortens self.dt to land on a requested output time')
+    else:
+        sites = set(id(p_[i].node) for p_, ix in cl_paths for i in ix)
+        chk.decide(len(sites) == 1 and all(len(ix) == 1 for p_, ix in cl_paths), 'clamp', 'single-site', node=cl_paths[0][0][cl_paths[0][1][0]].node, file=SOL, func='_dump_output_if_needed',
+                   detail_bad='self.dt is assigned at %d sites / more than once on a path' % len(sites), detail_ok='one assignment, once per path')
+        TOO_BIG = ('numpy.any((self.output_at_times - self.t > 0) & (self.output_at_times - self.t < self.dt))',
+                   'numpy.any((self.output_at_times - self.t < self.dt) & (self.output_at_times - self.t > 0))')
+        bad = {'lands': None, 'guard': None, 'reach': None, 'saved': None}
+        for p_, ix in cl_paths:
+            e = p_[ix[0]]
+            val = PT.resolve(e.node.value, e.env)
+            v0 = val.args[0] if isinstance(val, ast.Call) and M.call_name(val) == 'float' and len(val.args) == 1 else val
+            subs_ = [x for x in ast.walk(v0) if isinstance(x, ast.Subscript) and compact(x.value) == 'self.output_at_times']
+            lands = bool(subs_) and same(v0, '%s - self.t' % U(subs_[0]))
+            if not lands and bad['lands'] is None:
+                bad['lands'] = U(val)
+            gi_ = PT.took(p_[:ix[0]], True, *TOO_BIG)
+            if gi_ is None and bad['guard'] is None:
+                bad['guard'] = [U(PT.resolve(x.node, x.env)) + ' -> %s' % x.truth for x in p_[:ix[0]] if x.kind == 'cond']
+            li_ = PT.took(p_[:ix[0]], True, 'len(self.output_at_times) > 0', 'len(self.output_at_times) != 0', 'len(self.output_at_times)')
+            if li_ is None and bad['reach'] is None:
+                bad['reach'] = [U(x.node) + ' -> %s' % x.truth for x in p_[:ix[0]] if x.kind == 'cond']
+            sv = [i for i, x in enumerate(p_[:ix[0]]) if x.kind == 'stmt' and isinstance(x.node, ast.Assign) and U(x.node.targets[0]) == 'self._prev_dt'
+                  and compact(PT.resolve(x.node.value, x.env)) == 'self.dt']
+            if not sv and bad['saved'] is None:
+                bad['saved'] = True
+        node_c = cl_paths[0][0][cl_paths[0][1][0]].node
+        chk.decide(bad['lands'] is None, 'clamp', 'lands-on-output-time', node=node_c, file=SOL, func='_dump_output_if_needed',
+                   detail_bad='clamped step is %s (must be <a requested output time> - t: never past a requested time)' % bad['lands'], detail_ok='output_at_times[k] - t')
+        chk.decide(bad['guard'] is None, 'clamp', 'guard', node=node_c, file=SOL, func='_dump_output_if_needed',
+                   detail_bad='a path shortens the step without having found a requested time with 0 < tdiff < dt (tests on that path: %s)' % bad['guard'], detail_ok='(tdiff > 0) & (tdiff < dt)')
+        chk.decide(bad['reach'] is None, 'clamp', 'only-when-a-time-is-within-reach', node=node_c, file=SOL, func='_dump_output_if_needed',
+                   detail_bad='clamp conditions are %s' % bad['reach'], detail_ok='only with requested times, one of them within reach')
+        chk.decide(bad['saved'] is None, 'clamp', 'nominal-step-saved', node=node_c, file=SOL, func='_dump_output_if_needed',
+                   detail_bad='the nominal step is not saved in _prev_dt before the step is shortened', detail_ok='self._prev_dt = dt first')
+
+
 def main(chk):
     chk.explanation = ('CFG rules over Solver.solve: start/end dumps, per-iteration event order (pre callbacks, step(t, dt), post '
                        'callbacks, t += dt, count += 1, dt = _get_timestep(), dump decision) identical on every path and exactly once; '
@@ -103,6 +154,8 @@ def main(chk):
                 return 'dt?'
         if isinstance(a, ast.Assign):
             tg = [U(x) for x in a.targets]
+            if 'self._epsilon' in tg:
+                return 'eps' if N.same(a.value, 'EPSILON*self.tf*self.count') else 'eps?'
             if 'self.dt' in tg:
                 return 'dt=' + (M.call_name(a.value) or '?')
             if 'self.t' in tg:
@@ -122,7 +175,7 @@ def main(chk):
     ok = bool(norm)
     bad = []
     for s in norm:
-        stripped = tuple(e for e in s if e not in ('pre', 'post'))
+        stripped = tuple(e for e in s if e not in ('pre', 'post', 'eps'))
         # the time and the iteration counter are advanced independently of each other: either order
         order_ok = len(stripped) == len(core) and stripped[0] == core[0] and set(stripped[1:3]) == set(core[1:3]) and stripped[3:] == core[3:]
         # pre callbacks only before step, post only between step and the time update
@@ -132,12 +185,15 @@ def main(chk):
             order_ok = False
         if s.count('pre') > 1 or s.count('post') > 1:
             order_ok = False
+        # the tolerance grows with the number of steps taken: it is recomputed from the count just incremented, before the next step and the dump decision use it
+        if s.count('eps') != 1 or 'count+=1' not in s or not (s.index('count+=1') < s.index('eps') < (s.index('dt=self._get_timestep') if 'dt=self._get_timestep' in s else -1)):
+            order_ok = False
         if not order_ok:
             ok = False
             bad.append(s)
     chk.decide(ok, 'iteration-order', 'every-path', node=L.ast, file=SOL, func='Solver.solve',
                detail_bad='a path through one iteration performs %s; every path must perform [pre callbacks] step [post callbacks] t += dt, '
-                          'count += 1, dt = _get_timestep(), _dump_output_if_needed() exactly once in this order' % (list(bad[0]) if bad else None),
+                          'count += 1, epsilon = EPSILON*tf*count, dt = _get_timestep(), _dump_output_if_needed() exactly once in this order' % (list(bad[0]) if bad else None),
                detail_ok='%d distinct paths, all: [pre] %s' % (len(norm), ' -> '.join(core)))
     chk.unit('iteration paths', len(norm))
     # callbacks loops: each registered callback called with the solver
@@ -233,52 +289,10 @@ def main(chk):
                               'land-on-output-time clamp may change the step' % name, detail_ok='allowed writer')
     chk.floor('writers of self.dt', len(writers), 4)
     chk.floor('methods reachable from solve', len(reach), 10)
-    # --- clamp: decided per feasible path through _dump_output_if_needed (private helpers inlined, path-local names substituted)
+    rule_clamp(chk, cls)
     from verif_static import paths as PT
     dn = M.find_func(cls, '_dump_output_if_needed')
     dpaths = PT.enumerate_paths(M.docstring_stripped(dn.body))
-    chk.unit('paths through _dump_output_if_needed', len(dpaths))
-
-    def is_clamp(e):
-        return e.kind == 'stmt' and isinstance(e.node, ast.Assign) and U(e.node.targets[0]) == 'self.dt'
-    cl_paths = [(p_, [i for i, e in enumerate(p_) if is_clamp(e)]) for p_ in dpaths]
-    cl_paths = [(p_, ix) for p_, ix in cl_paths if ix]
-    if not cl_paths:
-        chk.violated('clamp', 'single-site', node=dn, file=SOL, func='_dump_output_if_needed', detail='no path shortens self.dt to land on a requested output time')
-    else:
-        sites = set(id(p_[i].node) for p_, ix in cl_paths for i in ix)
-        chk.decide(len(sites) == 1 and all(len(ix) == 1 for p_, ix in cl_paths), 'clamp', 'single-site', node=cl_paths[0][0][cl_paths[0][1][0]].node, file=SOL, func='_dump_output_if_needed',
-                   detail_bad='self.dt is assigned at %d sites / more than once on a path' % len(sites), detail_ok='one assignment, once per path')
-        TOO_BIG = ('numpy.any((self.output_at_times - self.t > 0) & (self.output_at_times - self.t < self.dt))',
-                   'numpy.any((self.output_at_times - self.t < self.dt) & (self.output_at_times - self.t > 0))')
-        bad = {'lands': None, 'guard': None, 'reach': None, 'saved': None}
-        for p_, ix in cl_paths:
-            e = p_[ix[0]]
-            val = PT.resolve(e.node.value, e.env)
-            v0 = val.args[0] if isinstance(val, ast.Call) and M.call_name(val) == 'float' and len(val.args) == 1 else val
-            subs_ = [x for x in ast.walk(v0) if isinstance(x, ast.Subscript) and compact(x.value) == 'self.output_at_times']
-            lands = bool(subs_) and same(v0, '%s - self.t' % U(subs_[0]))
-            if not lands and bad['lands'] is None:
-                bad['lands'] = U(val)
-            gi_ = PT.took(p_[:ix[0]], True, *TOO_BIG)
-            if gi_ is None and bad['guard'] is None:
-                bad['guard'] = [U(PT.resolve(x.node, x.env)) + ' -> %s' % x.truth for x in p_[:ix[0]] if x.kind == 'cond']
-            li_ = PT.took(p_[:ix[0]], True, 'len(self.output_at_times) > 0', 'len(self.output_at_times) != 0', 'len(self.output_at_times)')
-            if li_ is None and bad['reach'] is None:
-                bad['reach'] = [U(x.node) + ' -> %s' % x.truth for x in p_[:ix[0]] if x.kind == 'cond']
-            sv = [i for i, x in enumerate(p_[:ix[0]]) if x.kind == 'stmt' and isinstance(x.node, ast.Assign) and U(x.node.targets[0]) == 'self._prev_dt'
-                  and compact(PT.resolve(x.node.value, x.env)) == 'self.dt']
-            if not sv and bad['saved'] is None:
-                bad['saved'] = True
-        node_c = cl_paths[0][0][cl_paths[0][1][0]].node
-        chk.decide(bad['lands'] is None, 'clamp', 'lands-on-output-time', node=node_c, file=SOL, func='_dump_output_if_needed',
-                   detail_bad='clamped step is %s (must be <a requested output time> - t: never past a requested time)' % bad['lands'], detail_ok='output_at_times[k] - t')
-        chk.decide(bad['guard'] is None, 'clamp', 'guard', node=node_c, file=SOL, func='_dump_output_if_needed',
-                   detail_bad='a path shortens the step without having found a requested time with 0 < tdiff < dt (tests on that path: %s)' % bad['guard'], detail_ok='(tdiff > 0) & (tdiff < dt)')
-        chk.decide(bad['reach'] is None, 'clamp', 'only-when-a-time-is-within-reach', node=node_c, file=SOL, func='_dump_output_if_needed',
-                   detail_bad='clamp conditions are %s' % bad['reach'], detail_ok='only with requested times, one of them within reach')
-        chk.decide(bad['saved'] is None, 'clamp', 'nominal-step-saved', node=node_c, file=SOL, func='_dump_output_if_needed',
-                   detail_bad='the nominal step is not saved in _prev_dt before the step is shortened', detail_ok='self._prev_dt = dt first')
     # --- dump decision, per feasible path: output is written exactly when the iteration count is a multiple of pfreq or a requested time has been reached
     AT_TIME = ('numpy.any(numpy.abs(self.output_at_times - self.t) < self._epsilon)', 'numpy.any(numpy.abs(self.t - self.output_at_times) < self._epsilon)')
     PFREQ = ('self.count % self.pfreq == 0',)
@@ -443,9 +457,9 @@ def main(chk):
     # count < n_damp (and n_damp > 0) and exactly 1.0 otherwise
     from verif_static import paths as PT_
     dpar = [a_ for a_ in M.arg_names(dmp) if a_ != 'self'][0]
-    dpaths = [p_ for p_ in PT_.enumerate_paths(M.docstring_stripped(dmp.body)) if p_[-1].kind == 'return']
-    okd, whyd, kinds = bool(dpaths), '', set()
-    for p_ in dpaths:
+    mpaths = [p_ for p_ in PT_.enumerate_paths(M.docstring_stripped(dmp.body)) if p_[-1].kind == 'return']
+    okd, whyd, kinds = bool(mpaths), '', set()
+    for p_ in mpaths:
         sto = [v for i, tg, v in PT_.stores_on(p_) if tg == 'self._damping_factor']
         rv = PT_.resolve(p_[-1].node.value, p_[-1].env) if p_[-1].node.value is not None else None
         if len(sto) != 1 or rv is None:
@@ -468,7 +482,7 @@ def main(chk):
     okd = okd and kinds == set(['ramp', 'one'])
     chk.decide(okd, 'next-step', 'damping', node=dmp,
                file=SOL, func='_damp_timestep', detail_bad='damped step is not dt * (the factor stored in _damping_factor: the sine ramp while count < n_damp, 1.0 afterwards): %s' % whyd,
-               detail_ok='dt*factor; ramp while count < n_damp else 1.0 (%d paths)' % len(dpaths))
+               detail_ok='dt*factor; ramp while count < n_damp else 1.0 (%d paths)' % len(mpaths))
     # epsilon bookkeeping
     eps = [compact(a.value) for a in ast.walk(solve) if isinstance(a, ast.Assign) and U(a.targets[0]) == 'self._epsilon']
     chk.decide(eps == ['EPSILON*self.tf', 'EPSILON*self.tf*self.count'], 'loop-guard', 'epsilon', node=solve, file=SOL, func='Solver.solve',
@@ -480,7 +494,7 @@ def main(chk):
     c19 = importlib.util.module_from_spec(spec19)
     spec19.loader.exec_module(c19)
     c19.rule_provenance(chk, M.py(c19.INT))
-    c19.rule_fallback(chk)
+    c19.rule_fallback(chk, with_clamp=False)
     # the requested output times are kept as given: what is stored must not depend on the final time known when they are set (set_final_time may raise it later)
     cls_ = M.find_class(t, 'Solver')
     writers = []
